@@ -355,8 +355,22 @@ impl MemoHeader {
             "{database_key_index:?}: shallow_verify_memo(memo = {memo:#?})",
             memo = self.tracing_debug(has_value)
         );
+        #[cfg(salsa_rs_salsa_verif)]
+        let _order = crate::verif_proto::order_guard();
         let verified_at = self.verified_at.load();
         let revision_now = zalsa.current_revision();
+        #[cfg(salsa_rs_salsa_verif)]
+        {
+            crate::verif_proto::record_fetch(&[
+                crate::verif_proto::P::S("probe"),
+                crate::verif_proto::P::T(crate::sync::thread::current().id()),
+                crate::verif_proto::P::K(database_key_index),
+                crate::verif_proto::P::S(&verified_at.as_usize().to_string()),
+                crate::verif_proto::P::S(&self.revisions.changed_at.as_usize().to_string()),
+                crate::verif_proto::P::S(&revision_now.as_usize().to_string()),
+            ]);
+            drop(_order);
+        }
 
         if verified_at == revision_now {
             // Already verified.
